@@ -647,7 +647,7 @@ func genCase(r *h.Rand, nq int) []string {
 	for s := 0; s < nser; s++ {
 		n := int(r.Range(0, 14))
 		var times []int64
-		for len(times) < n {
+		for tries := 0; len(times) < n && tries < 200; tries++ {
 			t := r.Range(0, tspan)
 			if r.Chance(0.05) {
 				t = -r.Range(1, 9)
@@ -658,6 +658,7 @@ func genCase(r *h.Rand, nq int) []string {
 			}
 		}
 		sort.Slice(times, func(i, j int) bool { return times[i] < times[j] })
+		n = len(times)
 		line := "s " + hosts[s] + " "
 		if isInt {
 			vals := make([]int64, n)
